@@ -129,6 +129,10 @@ class SaveSim:
                 faults.append({'seam': seam, 'nth': 1, 'kind': rng.choice(kinds)})
             end = 'crash_after_ack' if rng.random() < 0.4 else 'exit'
             steps.append({'op': 'save', 'src': src, 'via': via, 'path': path, 'faults': faults, 'end': end})
+            if faults and faults[0]['kind'] not in ('crash', 'crash_after') and rng.random() < 0.5:
+                # bounded liveness inside the *same* process: once the fault is over, one more attempt must work
+                # (nothing - xarray's file cache, module state - may stay poisoned)
+                steps[-1]['inproc_retry'] = path if rng.random() < 0.5 else f'inproc{k}.nc'
             if faults:
                 steps.append({'op': 'save', 'src': src, 'via': via, 'retry': True,
                               'path': path if rng.random() < 0.6 else f'retry{k}.nc', 'faults': [], 'end': 'exit'})
@@ -194,6 +198,22 @@ class SaveSim:
             if not acked:
                 if step.get('retry'):
                     out.stats['probe.retry_not_acked'] += 1
+                rdone = [p for kk, p in res['events'] if kk == 'retry_done']
+                rraised = [p for kk, p in res['events'] if kk == 'retry_raised']
+                if rraised:
+                    out.violate('C17', 'retry-in-same-process-raised', rraised[0]['frame'],
+                                f"after the fault was over, one more save in the same process raised {rraised[0]['exc']}: {res['obs'].get('retry_msg')}")
+                elif rdone and rdone[0]['acked']:
+                    path2 = os.path.join(scratch, step['inproc_retry'])
+                    obs2 = lifetimes.run_lifetime(common.observe_file, path2)
+                    if obs2['status'] != 'exit':
+                        out.harness_error = f'observer failed: {obs2["error"]}'
+                        return
+                    out.stats['probe.retry_in_same_process_acked'] += 1
+                    acked_any = True
+                    units2 = self.judge(out, world, step, obs2['obs']['file'], res['obs'].get('pre'), k)
+                    out.event('judged_inproc_retry', step=k, units=units2)
+                    prev_path, prev_units = path2, units2
                 continue
             # acknowledged: another process reads the file
             path = os.path.join(scratch, step['path'])
@@ -351,6 +371,24 @@ def _save_lifetime(ctx, world_spec, step, scratch, tz, src_path):
         ctx.observe('raised_msg', info['msg'])
     fired, unfired, counts = ctl.end_op()
     ctx.emit('op_done', acked=acked, unfired=[(f['seam'], f['kind']) for f in unfired], crossings=dict(sorted(counts.items())))
+    if not acked and step.get('inproc_retry'):
+        path2 = os.path.join(scratch, step['inproc_retry'])
+        ctl.begin_op('save_retry', [])
+        acked2 = False
+        try:
+            if step['via'] == 'ems':
+                ds.ems.to_netcdf(path2)
+            elif step['via'] == 'utils_name':
+                emsarray.utils.to_netcdf_with_fixes(ds, path2, time_variable=t['name'] if t else None)
+            else:
+                emsarray.utils.to_netcdf_with_fixes(ds, path2, time_variable=ds[t['name']] if t else None)
+            acked2 = True
+        except Exception as e:
+            info = observe.exc_info(e)
+            ctx.emit('retry_raised', exc=info['exc'], frame=info['frame'], injected=info['injected'])
+            ctx.observe('retry_msg', info['msg'])
+        ctl.end_op()
+        ctx.emit('retry_done', acked=acked2)
     if step['end'] == 'crash_after_ack':
         ctx.crash_after_ack()
 
